@@ -606,7 +606,7 @@ def run_case(case):
 
 
 def _cases(ctx, broken):
-    progs, idx = _program_slice(ctx, 140)
+    progs, idx = _program_slice(ctx, 200)
     layouts = [([0, 3, 6, 8], [0, 2, 6]), ([0, 8], [0, 6]), ([0, 2, 4, 6, 8], [0, 2, 4, 6])]
     cases = []
     for j, i in enumerate(idx):
@@ -627,6 +627,7 @@ def support(ctx, broken):
     cases = _cases(ctx, broken)
     hist = {k: collections.Counter() for k in BUDGET}
     same_twice = collections.Counter()
+    per_sig = {}
     if ctx.quick:
         results = ((c, _safe_program_case(c)) for c in cases)
         pool = None
@@ -646,16 +647,18 @@ def support(ctx, broken):
             if len(sup.samples) < 3:
                 sup.samples.append(case)
             if msg:
-                sup.failures.append(Failure(sig={"kind": "program", "what": msg.split(":")[0][:50]}, case=case, detail=msg))
-                if len(sup.failures) >= 5:
-                    break
+                sig = {"kind": "program", "what": msg.split(":")[0][:50]}
+                k = json.dumps(sig, sort_keys=True)
+                per_sig[k] = per_sig.get(k, 0) + 1
+                if per_sig[k] <= 2:
+                    sup.failures.append(Failure(sig=sig, case=case, detail=msg))
     finally:
         if pool is not None:
             pool.terminate()
     # cross-process names (one batch per seed): a slice of the programs plus the fusion corpus
     from harness.props import c14
 
-    xcases = [c for c in cases if c["cutsL"] == [0, 3, 6, 8]][: (50 if ctx.quick else 2500)]
+    xcases = [c for c in cases if c["cutsL"] == [0, 3, 6, 8]][: (60 if ctx.quick else 2500)]
     xcases += [{"kind": "query", "query": name} for name, _ in c14.real_queries() if "/n2/" in name or not ctx.quick]
     try:
         fails, n = cross_process_failures(xcases)
